@@ -4,7 +4,7 @@
 (* driven through the dictionary state machine of GroupName.              *)
 EXTENDS GroupName, Json, IOUtils
 
-CONSTANTS MaxChunks, MaxTotal, MaxKeys, MaxCount, NAlpha
+CONSTANTS MaxChunks, MaxTotal, MaxKeys, MaxCount, NAlpha, ZeroCounts
 \* C  O  CO  C[d]  H: a name that is the concatenation of two others (CO = C + O), a bracketed name
 \* that sorts between them ("C" < "C[d]" < "CO" < "H" < "O"; case-insensitively "CO" < "C[d]")
 AlphaList == <<<<67>>, <<79>>, <<67, 79>>, <<67, 91, 100, 93>>, <<72>>>>
@@ -12,7 +12,7 @@ Alpha == {AlphaList[k] : k \in 1..NAlpha}
 Centres == {<<67>>, <<67, 79>>}
 \* a chunk "(n)" or "(n)c"; x = the count is written
 \* (a written count of zero is a spelling too: "(H)0" contributes no peripheral)
-Chunk == {ch \in [n : Alpha, c : 0..MaxCount, x : BOOLEAN] : ch.c # 1 => ch.x}
+Chunk == {ch \in [n : Alpha, c : (IF ZeroCounts THEN 0 ELSE 1)..MaxCount, x : BOOLEAN] : ch.c # 1 => ch.x}
 ChunkSeqs == UNION {[1..k -> Chunk] : k \in 0..MaxChunks}
 
 RECURSIVE Total(_)
